@@ -80,3 +80,18 @@ def bounds_on_residues(rng, n, b, pad_n=None):
 def out_of_range_values(n, p):
     """ordinals outside [0, n): just outside, far, negative, inside padding"""
     return sorted(set([-1, -2, -n, -n - 1, n, n + 1, p - 1, p, p + 1, 10 * n + 7, -10 * n - 3]) - set(range(0, n)))
+
+
+def noncontiguous(arr, k):
+    """an array equal to `arr` (same dtype, shape, values) whose memory layout is not C-contiguous: what a caller gets from
+    a transpose, a Fortran-ordered load or a strided view of a larger cube -- all valid NumpyConverter inputs"""
+    kind = k % 4
+    if kind == 0:
+        return np.asfortranarray(arr)
+    if kind == 1:
+        big = np.zeros((arr.shape[0], arr.shape[1] * 2, arr.shape[2] + 3), dtype=arr.dtype)
+        big[:, ::2, 1:1 + arr.shape[2]] = arr
+        return big[:, ::2, 1:1 + arr.shape[2]]
+    if kind == 2:
+        return np.ascontiguousarray(arr.transpose(2, 0, 1)).transpose(1, 2, 0)
+    return np.ascontiguousarray(arr[::-1])[::-1]
